@@ -5,9 +5,6 @@ From GoFlags Require Import Base.Str Base.Utf8 Golib.Strings Golib.Strconv
      Model.Types Model.Tag Model.Scan Model.Lookup Model.Convert Model.State Model.Closest.
 Open Scope N_scope.
 
-Notation "x <- a ;; b" := (bind a (fun x => b)) (at level 61, a at next level, right associativity).
-Notation "' p <- a ;; b" := (bind a (fun x => let p := x in b))
-  (at level 61, p pattern, a at next level, right associativity).
 
 Record pst := {
   ps_arg : str; ps_args : list str; ps_ret : list str; ps_pos : list arg;
